@@ -346,7 +346,9 @@ func (a *AggregatePlan) Batch(ctx *ExecuteCtx) ([][]Column, error) {
 			return nil, nil
 		}
 		if nrows <= restSkips {
+			// All rows of this batch are skipped
 			a.skips += nrows
+			rows = nil
 		} else {
 			a.skips += restSkips
 			rows = rows[restSkips:]
